@@ -76,6 +76,7 @@ class Contract:
     sym_globals: Dict[str, Any] = {}  # "module:name" -> type
     raises: tuple = ()  # exception classes allowed to escape
     check_frame: bool = True  # pre-existing objects unchanged on every exit, except `modifies`
+    strict_frame: bool = False  # C07: NO write at all (not even a restored one) to pre-existing objects / module globals
     use_contracts: tuple = ()  # contracts applied at call sites instead of inlining
     no_inline: tuple = ()  # live functions that must not be inlined (become opaque)
     opaque: tuple = ()  # "module:qualname" of functions replaced by an opaque total function (assumed, listed)
@@ -262,6 +263,8 @@ def verify_contract(c: Contract, registry: Dict[str, Contract], timeout_ms=core.
                     p.check(g, f"{c.target}/exit.{name}")
             if c.check_frame:
                 check_frame(c, I, p, args)
+            if c.strict_frame:
+                check_strict_frame(c, I, p, args)
 
         ex.run(body)
         out["paths"] = ex.paths_run
@@ -366,6 +369,34 @@ def check_frame(c: Contract, I: Interp, p, args):
             getattr(d, "pre", False) and d.mutations and (id(d), "data") not in allowed for d in p.ghost["data_objects"]) else None
     if not any_write:
         p.check(True, oid, note="no write to a pre-existing object on this path")
+
+
+def check_strict_frame(c: Contract, I: Interp, p, args):
+    """data-race freedom on pandera state (sufficient condition for C07): the function performs no write to an object
+    that another thread can reach - pre-existing schema objects, module globals - not even a write it later reverts."""
+    oid = f"{c.target}/strict_frame.no_write_to_shared_state"
+    allowed = set()
+    for o, a in c.modifies(**_kw(args)):
+        if not isinstance(o, str) and a == "data":
+            allowed.add(id(o))
+    seen = set()
+    bad = False
+    for ev in p.events:
+        if ev[0] == "write" and ev[1].pre and not ev[2].startswith("__") and id(ev[1]) not in allowed:
+            key = ("write", ev[1].name.split("[")[0], ev[2])
+        elif ev[0] == "global_write":
+            key = ("global_write", ev[1][0], ev[1][1])
+        elif ev[0] == "container_write":
+            key = ("container_write", getattr(ev[1], "name", "?"), "")
+        else:
+            continue
+        if key in seen:
+            continue
+        seen.add(key)
+        bad = True
+        p.check(False, oid, note=f"{key[0]} {key[1]}.{key[2]}")
+    if not bad:
+        p.check(True, oid, note="no write to shared state on this path")
 
 
 def I_value_equal(I, v1, v0):
